@@ -27,6 +27,8 @@ package keeper
 //@   prop C01 C14 C10
 //@ func (k Keeper) sendCoinsToModuleAccount(ctx, state)
 //@   requires state != nil && state.Account != nil && modaddr(state.Account.Id) != MAIN()
+//@   // the destination was validated against maccPerms when it was configured (Account.Validate)
+//@   panic_requires moduleExists(state.Account.Id)
 //@   modifies $bal, *state, $accTag, $accSeq, $accPub
 //@   ensures state.Account == old(state.Account) && state.Burn == old(state.Burn) && $supply == old($supply)
 //@   ensures ($bal == old($bal) && state.Remains == old(state.Remains))
